@@ -379,10 +379,15 @@ func (o *oidcHandler) retrieveTokens(ctx context.Context, log telemetry.Logger, 
 		return
 	}
 
-	// Knock 5 seconds off the expiry time to take into account the time it may
-	// have taken to retrieve the token.
-	expiresIn := time.Duration(bodyTokens.ExpiresIn)*time.Second - 5
-	accessTokenExpiration := o.clock.Now().Add(expiresIn)
+	// expires_in is optional (RFC 6749 section 5.1). When the provider does not send it the
+	// expiration is unknown: keep the zero time, which areRequiredTokensExpired does not test.
+	var accessTokenExpiration time.Time
+	if bodyTokens.ExpiresIn > 0 {
+		// Knock 5 seconds off the expiry time to take into account the time it may
+		// have taken to retrieve the token.
+		expiresIn := time.Duration(bodyTokens.ExpiresIn)*time.Second - 5
+		accessTokenExpiration = o.clock.Now().Add(expiresIn)
+	}
 
 	log.Debug("saving tokens to session store")
 	if err := store.SetTokenResponse(ctx, sessionID, &oidc.TokenResponse{
